@@ -10,6 +10,7 @@
 long g_mm_live;      /* ghost: allocations minus frees through event_mm_* */
 long g_mm_allocs;    /* ghost: successful allocations */
 long g_mm_frees;     /* ghost: frees of non-NULL */
+#define VF_MM_RESET() do { g_mm_live = 0; g_mm_allocs = 0; g_mm_frees = 0; } while (0)
 #ifdef VF_MM_NOFAIL
 #define VF_MM_FAIL_() 0
 #else
